@@ -143,9 +143,13 @@ func (g *egSpec) render(name string, options map[string]string, space bool, pars
 	}
 	sort.Strings(keys)
 	for _, k := range keys {
+		if strings.HasPrefix(k, "__") {
+			continue // raw sections, see below
+		}
 		fmt.Fprintf(&sb, "%s = %s\n", k, options[k])
 	}
 	sb.WriteString("\n:: lexer\n\n")
+	sb.WriteString(options["__lexer"])
 	if space {
 		sb.WriteString("space: /[ \\t\\n]+/ (space)\n")
 	}
